@@ -141,15 +141,14 @@ Proof. exact discard_iter_spec. Qed.
 Print Assumptions C34_oset_discard.
 
 (* non-vacuity: add, re-add, discard+add, pop at both ends, `a & b` ordered like b, aliasing *)
+Definition C34_oset_example_ops : list oop :=
+  [OAdd 0 5%N; OAdd 0 3%N; OAdd 0 5%N; OAdd 0 9%N; ODiscard 0 5%N; OAdd 0 5%N;
+   OFromList 1 [5%N; 7%N; 3%N; 5%N]; OAnd 2 0 1; OPop 0 false; OPop 1 true; OIor 0 0; OIsub 1 1; OPop 1 true].
 Example C34_oset_example :
-  orun [OAdd 0 5%N; OAdd 0 3%N; OAdd 0 5%N; OAdd 0 9%N; ODiscard 0 5%N; OAdd 0 5%N;
-        OFromList 1 [5%N; 7%N; 3%N; 5%N]; OAnd 2 0 1; OPop 0 false; OPop 1 true; OIor 0 0; OIsub 1 1; OPop 1 true]
-  = option_map (fun rs => (rs, snd (srun [OAdd 0 5%N; OAdd 0 3%N; OAdd 0 5%N; OAdd 0 9%N; ODiscard 0 5%N; OAdd 0 5%N;
-        OFromList 1 [5%N; 7%N; 3%N; 5%N]; OAnd 2 0 1; OPop 0 false; OPop 1 true; OIor 0 0; OIsub 1 1; OPop 1 true])))
-      (option_map fst (orun [OAdd 0 5%N; OAdd 0 3%N; OAdd 0 5%N; OAdd 0 9%N; ODiscard 0 5%N; OAdd 0 5%N;
-        OFromList 1 [5%N; 7%N; 3%N; 5%N]; OAnd 2 0 1; OPop 0 false; OPop 1 true; OIor 0 0; OIsub 1 1; OPop 1 true]))
-  /\ srun [OAdd 0 5%N; OAdd 0 3%N; OAdd 0 5%N; OAdd 0 9%N; ODiscard 0 5%N; OAdd 0 5%N;
-        OFromList 1 [5%N; 7%N; 3%N; 5%N]; OAnd 2 0 1; OPop 0 false; OPop 1 true; OIor 0 0; OIsub 1 1; OPop 1 true]
+  option_map (fun p => (map oset_obs (fst p), snd p)) (orun C34_oset_example_ops)
+  = Some (map spec_obs [[9%N; 5%N]; []; [5%N; 3%N]],
+          [RNone; RNone; RNone; RNone; RNone; RNone; RNone; RNone; RKey 3%N; RKey 3%N; RNone; RNone; RKeyError])
+  /\ srun C34_oset_example_ops
      = ([[9%N; 5%N]; []; [5%N; 3%N]],
         [RNone; RNone; RNone; RNone; RNone; RNone; RNone; RNone; RKey 3%N; RKey 3%N; RNone; RNone; RKeyError]).
 Proof. vm_compute. split; reflexivity. Qed.
